@@ -1,11 +1,11 @@
 SPECIFICATION Spec
 CONSTANTS
-  NC = 4
+  NC = 5
   NU = 2
-  MaxConn = 4
-  MaxRefuse = 2
-  MaxFeed = 1
-  MaxEof = 2
+  MaxConn = 6
+  MaxRefuse = 3
+  MaxFeed = 2
+  MaxEof = 3
   SlowSet = {"C", "D", "X"}
 INVARIANT MonitorQuiet
 INVARIANT OneReceivePath
